@@ -58,6 +58,9 @@ type RunResult struct {
 	PrintBy     []int          `json:"print_by"`     // spawn serial of the printer, parallel to HookPrints
 	MonPrints   int            `json:"mon_prints"`   // PRINT entries in the monitor's rule log (-1 = no monitor)
 	Quiescent   bool           `json:"quiescent"`
+	// ParkedOutsideHooks: quiescence was established from the goroutine dump (every interpreter
+	// goroutine parked in a channel operation) while the hook table still showed activity
+	ParkedOutsideHooks bool `json:"parked_outside_hooks,omitempty"`
 	Watchdog    bool           `json:"watchdog"`
 	Overrun     bool           `json:"overrun"`   // event budget exceeded
 	Premature   bool           `json:"premature"` // heartbeat entry: cancelled while something was running
